@@ -171,6 +171,14 @@ def run_sampler_case(ctx, suite, case, oracle=None, compare=True):
                 if 'ok' not in rep:
                     ctx.disagree(suite, case, f'implementation returned a molecule, model raises {rep.get("err")} in {rep.get("phase")}')
                 else:
+                    # hypotheses of the C16 run theorem (CGV.C16.cfgWFb_sound), evaluated by the model on the library the
+                    # real reader produced: distinct keys / closed bonds / distinct names must always hold; a template
+                    # in several pieces is legal input to which the theorem does not apply (counted, not reported)
+                    hyp = rep.get('hyp', {})
+                    if hyp.get('frags_wf') is False:
+                        ctx.disagree(suite, case, 'the fragment library handed to the sampler does not meet the hypothesis of the '
+                                                  'C16 run theorem (duplicate keys, a dangling bond or a duplicate name)')
+                    ctx.feature('hyp:cfg-wf' if hyp.get('cfg_wf') else 'hyp:cfg-not-connected')
                     d = lib.diff_obj(lib.model_mol_canon(rep['ok']['final']), lib.dump_mol(rec['mol']), 'molecule')
                     if d is None and rep['ok']['unused']:
                         d = f'model stopped growing with {len(rep["ok"]["unused"])} recorded decisions unused'
